@@ -28,8 +28,8 @@ def list_ops(prog, ctx, p, appenders):
         elif e.kind == "call" and e.target is None and e.recv is not None and strip_epochs(e.recv) == BLOOMS and e.d.get("mutates"):
             if e.name == "append":
                 ops.append(("append", e))
-            elif e.name == "pop":
-                a = strip_epochs(e.args[0]) if e.args else None
+            elif e.name == "pop" or (e.name == "__delitem__" and e.args and strip_epochs(e.args[0]) == C(0)):
+                a = strip_epochs(e.args[0]) if e.args else None  # del xs[0] removes what xs.pop(0) removes
                 ops.append(("pop0" if a == C(0) else f"pop({nshow(a) if a else ''})", e))
             else:
                 ops.append((f"other:{e.name}", e))
